@@ -181,3 +181,7 @@ func vh_C11_L5_window_follows_buffer() {
 	vobserve("win", uint64(a.payloadQueue.maxTSNOffset))
 	vcover("end")
 }
+
+// C11.L6: the advertised window returns to the full buffer after an abandoned, partially
+// received message has been skipped (same obligation as vh_C07_L1, which ends with it).
+func vh_C11_L6_return_to_full_after_skip() { vh_C07_L1_abandoned_does_not_block() }
